@@ -262,7 +262,8 @@ func (b *binding) emitResolveVar(strict bool) {
 	} else {
 		var typ varType
 		if b.isConst {
-			if b.isStrict {
+			// (the own name of a sloppy named function expression: an assignment throws only in strict code)
+			if b.isStrict || strict {
 				typ = varTypeStrictConst
 			} else {
 				typ = varTypeConst
